@@ -38,7 +38,7 @@ def unit_for(cls):
                 functions=['%s.compose' % cls.__name__, '%s._parse' % cls.__name__])
 
 
-def units(tier, seed):
+def _units_body(tier, seed):
     classes = [c for c in common.select_classes(e1.binary_classes(), tier, 'C01')
                if c.__name__ not in _regions.whole_class_regions()]
     UNCOVERED[:] = common.uncovered_report(e1.binary_classes(), classes)
@@ -58,4 +58,10 @@ def units(tier, seed):
 
 
 from checks import regions as _regions
+
+def units(tier, seed):
+    from checks import canary
+    return list(_units_body(tier, seed)) + [canary.e2_layout(), canary.e1_accepts()]
+
+
 FINDING_REPLAYS = _regions.finding_replays('C01')
